@@ -29,7 +29,7 @@ Proof.
   apply orb_false_elim in E. destruct E as [E1 E2].
   assert (Hk : (Z.to_nat (ext * BS) < length bytes)%nat).
   { destruct (Nat.lt_ge_cases (Z.to_nat (ext * BS)) (length bytes)) as [H|H]; [exact H|].
-    exfalso. apply Hne. rewrite skipn_all2 by exact H. apply firstn_nil. }
+    exfalso. apply Hne. rewrite skipn_all2 by (unfold zlen; lia). apply firstn_nil. }
   split.
   - unfold ps_file_U. apply in_map_iff. exists (Z.to_nat ext). split; [lia|]. apply in_seq.
     split; [lia|]. cbn [Nat.add]. apply Nat.lt_succ_r. apply Nat.div_le_lower_bound; [lia|].
